@@ -44,6 +44,22 @@ int main(int argc,char**argv){ uint64_t seed=argc>1?strtoull(argv[1],0,0):1; lon
     unsigned long g = type==2 ? atomic_load(&last) : atomic_load(&got);
     if(!viol && g!=want) fail("a value merged while the source was suspended was not delivered after dispatch_resume (5 s): type / delivered / expected",type,(long)g,(long)want);
     dispatch_source_cancel(ds); dispatch_release(ds); if(tq<2) dispatch_release(q); n++; usleep(1000); }
+  // values merged BEFORE the pass that runs the registration handler (while the source is still inactive, or right after
+  // dispatch_activate) and nothing merged afterwards: they are delivered all the same, without a later merge to shake them loose
+  for(int rep=0; rep<2 && !viol; rep++) for(int type=0; type<3 && !viol; type++) for(int tq=0; tq<3 && !viol; tq++){
+    dispatch_queue_t q = tq==0? dispatch_queue_create("rg.s",NULL) : tq==1? dispatch_queue_create("rg.c",DISPATCH_QUEUE_CONCURRENT) : (dispatch_queue_t)dispatch_get_global_queue(0,0);
+    dispatch_source_t ds=dispatch_source_create(type==0?DISPATCH_SOURCE_TYPE_DATA_ADD: type==1?DISPATCH_SOURCE_TYPE_DATA_OR: DISPATCH_SOURCE_TYPE_DATA_REPLACE,0,0,q);
+    __block _Atomic unsigned long got=0, last=0; __block _Atomic int reg=0;
+    dispatch_source_set_event_handler(ds,^{ unsigned long d=dispatch_source_get_data(ds); if(type==1) atomic_fetch_or(&got,d); else atomic_fetch_add(&got,d); atomic_store(&last,d); });
+    dispatch_source_set_registration_handler(ds,^{ atomic_store(&reg,1); });
+    unsigned long a = 3+(unsigned long)((seed+(uint64_t)type+(uint64_t)tq)%5), b = 16;
+    dispatch_source_merge_data(ds,a);                       // while inactive
+    dispatch_activate(ds); if(rep) dispatch_source_merge_data(ds,b);      // right after the activation (rep 1)
+    unsigned long want = rep ? (type==0? a+b : type==1? (a|b) : b) : a;
+    for(int w=0; w<3000; w++){ unsigned long g = type==2 ? atomic_load(&last) : atomic_load(&got); if(g==want && atomic_load(&reg)) break; usleep(1000); }
+    unsigned long g = type==2 ? atomic_load(&last) : atomic_load(&got);
+    if(g!=want) fail("values merged before the registration handler of a source had run were not delivered (3 s; nothing was merged afterwards): type / delivered / expected",type,(long)g,(long)want);
+    dispatch_source_cancel(ds); dispatch_release(ds); if(tq<2) dispatch_release(q); n++; usleep(1000); }
   main_th=pthread_self();
   for(int rep=0; rep<4 && !viol; rep++) for(int type=0; type<3 && !viol; type++){ dispatch_queue_t q=dispatch_queue_create("rs.x",NULL);
     dispatch_source_t ds=dispatch_source_create(type==0?DISPATCH_SOURCE_TYPE_DATA_ADD: type==1?DISPATCH_SOURCE_TYPE_DATA_OR: DISPATCH_SOURCE_TYPE_DATA_REPLACE,0,0,q);
